@@ -38,7 +38,7 @@ class ValidationError(StathamError):
     @classmethod
     def from_validator(cls, property_, value, message) -> "ValidationError":
         value_string = (
-            f"{repr(property_.parent)}.{property_.name} = {_display(value)}`"
+            f"{_display(property_.parent)}.{property_.name} = {_display(value)}`"
             if property_.name != "<unbound>"
             else _display(value)
         )
@@ -60,7 +60,7 @@ class ValidationError(StathamError):
         return cls(
             "Matches multiple possible models. Must only match one.\n"
             f"Data: {_display(data, str)}\n"
-            f"Models: {matching_models}"
+            f"Models: {_display(matching_models, str)}"
         )
 
 
